@@ -7,14 +7,16 @@
 #include <stdio.h>
 #include <stdlib.h>
 #include <string.h>
+#include <pthread.h>
 #include <windows.h>
 #include "process.h"
+#define TL __thread   /* everything the stubs record is per thread: the "threads" mode runs several starts at once */
 
 const HANDLE HANDLE_INVALID = INVALID_HANDLE_VALUE;
 HANDLE handle_destroy(HANDLE h) { (void) h; return HANDLE_INVALID; }
 const int REPROC_SIGTERM = 143, REPROC_SIGKILL = 137;
 
-static DWORD last_error;
+static TL DWORD last_error;
 void SetLastError(DWORD e) { last_error = e; }
 DWORD GetLastError(void) { return last_error; }
 BOOL SetHandleInformation(HANDLE h, DWORD m, DWORD f) { (void) h; (void) m; (void) f; return 1; }
@@ -31,7 +33,7 @@ BOOL GenerateConsoleCtrlEvent(DWORD e, DWORD g) { (void) e; (void) g; return 1; 
 BOOL TerminateProcess(HANDLE h, UINT c) { (void) h; (void) c; return 1; }
 
 /* parent environment block served by GetEnvironmentStringsW */
-static wchar_t parent_block[4096]; static int parent_len;
+static TL wchar_t parent_block[4096]; static TL int parent_len;
 wchar_t *GetEnvironmentStringsW(void) { wchar_t *c = malloc(sizeof(wchar_t) * (size_t) (parent_len + 2)); memcpy(c, parent_block, sizeof(wchar_t) * (size_t) (parent_len + 2)); return c; }
 BOOL FreeEnvironmentStringsW(wchar_t *p) { free(p); return 1; }
 
@@ -46,9 +48,9 @@ int MultiByteToWideChar(UINT cp, DWORD flags, LPCCH s, int n, LPWSTR out, int ou
 }
 
 /* what CreateProcessW saw */
-static int seen_cmd[1 << 16], seen_cmd_n;
-static int seen_env[1 << 16], seen_env_n;
-static int created;
+static TL int seen_cmd[1 << 16], seen_cmd_n;
+static TL int seen_env[1 << 16], seen_env_n;
+static TL int created;
 BOOL CreateProcessW(LPCWSTR app, LPWSTR cmd, LPSECURITY_ATTRIBUTES pa, LPSECURITY_ATTRIBUTES ta, BOOL inh, DWORD fl, LPVOID env, LPCWSTR cwd,
                     LPSTARTUPINFOW si, LPPROCESS_INFORMATION pi)
 {
@@ -70,7 +72,7 @@ BOOL CreateProcessW(LPCWSTR app, LPWSTR cmd, LPSECURITY_ATTRIBUTES pa, LPSECURIT
 
 /* --wrap=calloc: sizes of the buffers process_start allocates */
 extern void *__real_calloc(size_t, size_t);
-static size_t alloc_log[16][2]; static int nalloc;
+static TL size_t alloc_log[16][2]; static TL int nalloc;
 void *__wrap_calloc(size_t n, size_t sz) { if (nalloc < 16) { alloc_log[nalloc][0] = n; alloc_log[nalloc][1] = sz; nalloc++; } return __real_calloc(n, sz); }
 
 static const char ALPHA[] = { 'a', ' ', '\t', '\n', '\v', '"', '\\' };
@@ -109,6 +111,33 @@ static void run_case(const char *const *argv, int envb, const char *const *envx,
   printf("]}\n");
 }
 
+/* "threads" mode: several threads build command lines for DIFFERENT argument vectors at the same time (vectors that differ,
+ * index by index, in whether the argument needs quoting); every result must be the one the same vector gives alone */
+static const char *TV[4][5] = {
+  { "prog", "two words", "a\tb", "plain", NULL }, { "prog", "alpha", "beta", "with space", NULL },
+  { "prog", "q\"uote", "x", "tail\\", NULL }, { "prog", "", "sp ace", "z", NULL } };
+static int ref_cmd[4][512], ref_n[4];
+static int thr_bad;
+static int one_cmd(const char *const *argv)
+{
+  HANDLE h = NULL; struct process_options o; memset(&o, 0, sizeof o);
+  static const char *noenv_[] = { NULL };
+  o.env.behavior = 1; o.env.extra = noenv_;
+  o.handle.in = (HANDLE) (intptr_t) 10; o.handle.out = (HANDLE) (intptr_t) 11; o.handle.err = (HANDLE) (intptr_t) 12; o.handle.exit = (HANDLE) (intptr_t) 13;
+  parent_len = 0; parent_block[0] = 0; parent_block[1] = 0;
+  seen_cmd_n = 0;
+  return process_start(&h, argv, o);
+}
+static void *thr_body(void *arg)
+{
+  int t = (int) (intptr_t) arg;
+  for (int i = 0; i < 20000; i++) {
+    int r = one_cmd(TV[t]);
+    if (r < 0 || seen_cmd_n != ref_n[t] || memcmp(seen_cmd, ref_cmd[t], sizeof(int) * (size_t) seen_cmd_n) != 0) __atomic_add_fetch(&thr_bad, 1, __ATOMIC_RELAXED);
+  }
+  return NULL;
+}
+
 /* enumerate all strings over ALPHA of length <= L into buf list */
 static char **strs; static int nstrs;
 static void gen(int L)
@@ -133,7 +162,14 @@ int main(int argc, char **argv)
   static char obuf[1 << 20];
   setvbuf(stdout, obuf, _IOFBF, sizeof obuf);
   const char *noenv[] = { NULL };
-  if (!strcmp(mode, "single")) {
+  if (!strcmp(mode, "threads")) {
+    for (int t = 0; t < 4; t++) { one_cmd(TV[t]); ref_n[t] = seen_cmd_n; memcpy(ref_cmd[t], seen_cmd, sizeof(int) * (size_t) seen_cmd_n); }
+    pthread_t th[4];
+    for (int t = 0; t < 4; t++) pthread_create(&th[t], NULL, thr_body, (void *) (intptr_t) t);
+    for (int t = 0; t < 4; t++) pthread_join(th[t], NULL);
+    printf("{\"threads\":4,\"starts\":80000,\"bad\":%d}\n", thr_bad);
+    return thr_bad ? 1 : 0;
+  } else if (!strcmp(mode, "single")) {
     gen(L);
     for (int i = 0; i < nstrs; i++) {
       const char *a1[] = { "prog", "x", strs[i], "tail\\", NULL }; run_case(a1, 1, NULL, noenv);   /* between two neighbours */
